@@ -4,7 +4,25 @@ C03 — reported state and costs along a route are the true sums over its edges.
 Component statements over `Model/Instance.lean`: state accumulation (`add_distance`, `add_time` as
 repaired: the delta is converted to the feature's unit and added to the feature's own slot),
 the distance and speed-table traversal models, turn classification and heading wrap.
-(Route-level accumulation is added from `Proofs/SearchDiscipline`.)
+Route level (`Proofs/SearchDiscipline`, `Proofs/RouteSums`): the link relation and the closed forms
+along every route of a Dijkstra search (`dijkstra_…`: the Dijkstra restriction is forced — for A* with
+an estimate that is inconsistent for the network the statement is false of model and code, see
+`stale_link_counterexample`; `SearchDiscipline.route_links_fresh_of_heur` extends the link relation to
+every consistent vertex estimate), vertex-oriented and edge-oriented (`dijkstra_edge_oriented_…`,
+`edge_oriented_adjacent_…`); the response's `traversal_summary`
+(`traversal_summary_is_state_after_last_edge`).  The k-shortest-path routes (both halves of a
+single-via alternative, Yen's root and spur parts) are C13's theorems
+(`Props/C13.lean`: every alternative's re-created part is the forward re-accumulation from the last
+edge and state of the part it continues), not restated here.
+
+Modelled rather than verified, and why it is harmless here:
+* the turn-delay access model writes its delay to the state feature named by its
+  `time_feature_name` (configurable, default `"time"`); `AccessModel.access` of the search model writes
+  to the feature called `"time"`.  The search harness always configures `"time"`; the builder stream
+  (`bld heads`, `Drv/Build.lean`) covers other names by renaming the probe's state feature, and
+  `turn_delay_builder_ok` says which name the builder hands over.  A configuration whose access model
+  writes to a time feature other than the one the speed-table model writes to (`"time"`, fixed in
+  `speed_traversal_model.rs`) is outside the route-level theorems.
 -/
 import Compass.Proofs.Num
 import Compass.Model.Instance
@@ -276,7 +294,13 @@ theorem dijkstra_route_time_is_sum (c : Config α) (hadj : c.AdjConsistent) (hwf
 /-- Dijkstra, every configuration with non-negative edge lengths and non-negative configured turn
 delays: distance and time never decrease from the initial state to the first route element nor from
 one route element to the next (table speeds need no
-hypothesis: `create_time` fails the run on a non-positive speed or length). -/
+hypothesis: `create_time` fails the run on a non-positive speed or length).
+The two premises are premises on the *data*, not on the run: `hlen` (no edge of the network has a
+negative length — graph data, C15 reads lengths as they stand) and `hdel`
+(`RouteSums.DelaysNonneg`: no configured turn delay is negative).  `hdel` holds of every access model
+`TurnDelayAccessModelBuilder` returns (`turn_delay_builder_delays_nonneg`, since /repo 55d6aca; before,
+any number was accepted).  Without it the statement is false:
+`route_monotone_negative_delay_counterexample`. -/
 theorem dijkstra_route_monotone (c : Config α) (hadj : c.AdjConsistent) (hwf : c.wf = some 0)
     {source t : Nat} {sched : List Nat} {res : SearchResult α} (hts : t ≠ source)
     (hrun : runVertexOriented c.inst source (some t) sched = .ok res)
@@ -566,6 +590,25 @@ theorem stale_link_absent_under_dijkstra :
     routeStatesOf (({ staleConfig with wf := some 0 } : Config ℚ).runVertex 0 (some 4) [0, 1, 2, 3, 4]) =
       some [[(1, [100, 0]), (2, [200, 0]), (3, [300, 2000]), (4, [400, 2000])]] := by
   decide +kernel
+
+/-- `dijkstraConfig` with a delay of −50 s on the right turn, assembled in code (the application's
+builder refuses this table) -/
+def negativeDelayConfig : Config ℚ := { staleConfig with
+  wf := some 0
+  access := .turnDelay .seconds [(90, some 90), (0, some 0), (0, some 0), (90, some 90), (90, some 90)]
+    [some 0, some 0, some 0, some (-50), some 0, some 0, some 0, some 0] }
+
+/-- why `dijkstra_route_monotone` assumes non-negative delays: with a negative delay in the table the
+Dijkstra route s→w→u→v→t reports time 0, 0, −50, −50 — the time decreases at the turn onto u→v
+(the states still accumulate: `dijkstra_route_accumulates` needs no such premise) -/
+theorem route_monotone_negative_delay_counterexample :
+    routeStatesOf (negativeDelayConfig.runVertex 0 (some 4) [0, 1, 2, 3, 4]) =
+      some [[(1, [100, 0]), (2, [200, 0]), (3, [300, -50]), (4, [400, -50])]] ∧
+    ¬ RouteSums.DelaysNonneg negativeDelayConfig.access := by
+  refine ⟨by decide +kernel, ?_⟩
+  intro h
+  have := h (-50) (by simp [negativeDelayConfig])
+  norm_num at this
 
 /-! ### Non-vacuity -/
 example : addDistance [⟨"distance", .dist .meters, (0 : ℚ)⟩] [5] "distance" 2 .meters = some [7] := by
@@ -858,12 +901,13 @@ theorem delay_table_is_the_configuration (dec : Nat → α) (kvs : List (String 
   delayTable_spec dec kvs ds h
 
 /-- what `TurnDelayAccessModelBuilder::build` hands over is the file's headings, the configured
-table and unit, and the configured (or default `time`) feature name — nothing else is accepted -/
+table and unit, and the configured (or default `time`) feature name — nothing else is accepted; and
+no delay of the table is negative (since /repo 55d6aca) -/
 theorem turn_delay_builder_ok (dec : Nat → α) (cfg : Json) (headerOk : Bool) (file : Option (List HeadLine))
     (b : TurnDelayBuilt α) (h : turnDelayBuild dec cfg headerOk file = .ok b) :
     ∃ lines hs m tu ds, file = some lines ∧ loadHeadings headerOk lines = some hs ∧
       cfg.get? "turn_delay_model" = some m ∧ turnDelayModelOfJson dec m = some (tu, ds) ∧
-      b.model = .turnDelay tu hs ds ∧
+      b.model = .turnDelay tu hs ds ∧ (∀ x, some x ∈ ds → 0 ≤ x) ∧
       ((cfg.get? "time_feature_name" = none ∧ b.featureName = "time") ∨
         cfg.get? "time_feature_name" = some (.str b.featureName)) := by
   unfold turnDelayBuild at h
@@ -882,13 +926,48 @@ theorem turn_delay_builder_ok (dec : Nat → α) (cfg : Json) (headerOk : Bool) 
           · cases h
           · rename_i tu ds htd
             split at h
-            · rename_i hn
-              injection h with h; subst h
-              exact ⟨lines, hs, m, tu, ds, rfl, hhs, hm, htd, rfl, Or.inl ⟨hn, rfl⟩⟩
-            · rename_i s hn
-              injection h with h; subst h
-              exact ⟨lines, hs, m, tu, ds, rfl, hhs, hm, htd, rfl, Or.inr hn⟩
             · cases h
+            · rename_i hneg
+              have hnn : ∀ x, some x ∈ ds → 0 ≤ x := by
+                intro x hx
+                by_contra hlt
+                apply hneg
+                unfold hasNegativeDelay
+                rw [List.any_eq_true]
+                exact ⟨some x, hx, by simpa [zero_eq] using hlt⟩
+              split at h
+              · rename_i hn
+                injection h with h; subst h
+                exact ⟨lines, hs, m, tu, ds, rfl, hhs, hm, htd, rfl, hnn, Or.inl ⟨hn, rfl⟩⟩
+              · rename_i s hn
+                injection h with h; subst h
+                exact ⟨lines, hs, m, tu, ds, rfl, hhs, hm, htd, rfl, hnn, Or.inr hn⟩
+              · cases h
+
+/-- **every access model the builder returns has non-negative delays**: the premise
+`RouteSums.DelaysNonneg` of `dijkstra_route_monotone` holds of it, so along every Dijkstra route of a
+configuration built by the application time never decreases at a turn -/
+theorem turn_delay_builder_delays_nonneg (dec : Nat → α) (cfg : Json) (headerOk : Bool)
+    (file : Option (List HeadLine)) (b : TurnDelayBuilt α)
+    (h : turnDelayBuild dec cfg headerOk file = .ok b) : RouteSums.DelaysNonneg b.model := by
+  obtain ⟨_, hs, _, tu, ds, _, _, _, _, hb, hnn, _⟩ := turn_delay_builder_ok dec cfg headerOk file b h
+  rw [hb]
+  exact hnn
+
+/-- a delay table with a negative delay is refused, whatever else the configuration says -/
+theorem turn_delay_builder_refuses_negative (dec : Nat → α) (cfg : Json) (headerOk : Bool)
+    (file : Option (List HeadLine)) (m : Json) (tu : TimeUnit) (ds : List (Option α)) (x : α)
+    (hm : cfg.get? "turn_delay_model" = some m) (htd : turnDelayModelOfJson dec m = some (tu, ds))
+    (hx : some x ∈ ds) (hneg : x < 0) (b : TurnDelayBuilt α) :
+    turnDelayBuild dec cfg headerOk file ≠ .ok b := by
+  intro h
+  obtain ⟨_, _, m', tu', ds', _, _, hm', htd', _, hnn, _⟩ :=
+    turn_delay_builder_ok dec cfg headerOk file b h
+  rw [hm] at hm'
+  cases hm'
+  rw [htd] at htd'
+  cases htd'
+  exact absurd (hnn x hx) (not_le.2 hneg)
 
 /-! Non-vacuity: a two-line speed file in km/h with default units; a three-record headings file;
 a configuration with two delays. -/
